@@ -10,7 +10,7 @@ import z3
 from .core import (Val, Num, Bool, Str, NoneV, NONE, Tup, Vec, Obj, Opaque, Unsupported, PyRaise, zint, conc)
 from . import ops
 from .ops import lift, vget, ite_val
-from .interp import method, lib
+from .interp import method, lib, METHODS
 
 
 class HostDict(Val):
@@ -112,6 +112,9 @@ def make_set(interp, src):
     ctx = interp.ctx
     if src is None:
         return SymSet(lambda x: z3.BoolVal(False), 0)
+    conv = METHODS.get((interp.kind_of(src), "__set__"))
+    if conv is not None:          # abstract collections supplied by a contract (e.g. the vertex ids of a Voronoi region)
+        return conv(interp, src, [], {})
     seq = iter_to_vec(interp, src)
     if seq.elem not in ("int",):
         raise Unsupported("set of non-integers")
